@@ -84,6 +84,11 @@ def _run_pandas(case, T, obj):
                 except errors.SchemaErrors as e:
                     fc = e.failure_cases
                     fc = fc[fc["check"].astype(str).str.startswith("coerce_dtype")]
+                    # (an error that names no cell arrives lazily as one entry without label and value: the same as
+                    # failure_cases=None of the eager ParserError)
+                    fc = fc[~(fc["index"].isna() & fc["failure_case"].isna())]
+                    if fc.empty:
+                        return {"kind": "parser", "pairs": []}
                     if fc.empty:
                         return {"kind": "other", "exc_type": "SchemaErrors-without-coercion-entries", "msg": str(e)[:200]}
                     # (the entries carry the column schema's pattern as "column", so the two matched columns cannot be told
@@ -784,7 +789,7 @@ def _k_extint_fraction(family, case, disc):
     import math
     # (lazily the same unattributed error arrives as one entry without label and value)
     return (family == "pandas" and (disc.kind.startswith("unconvertible-missing-from-failure-cases:extint:")
-                                    or (disc.kind == "null-listed-as-failure-case:extint" and case.get("regex_lazy")))
+                                    or (disc.kind == "null-listed-as-failure-case:extint" and case.get("regex_lazy")))  # (kept: harmless)
             and case["dtype"]["k"] == "extint"
             and any(isinstance(V.norm(v), float) and math.isfinite(v) and v != int(v) for v in _elems(case)))
 
